@@ -70,6 +70,8 @@ func (q *ByteSize) UnmarshalJSON(value []byte) error {
 const maxQuantityExponent = 1024
 
 func checkQuantityExponent(str string) error {
+	// resource.Quantity's UnmarshalJSON trims white space around the value before parsing it
+	str = strings.TrimSpace(str)
 	i := strings.LastIndexAny(str, "eE")
 	if i < 0 {
 		return nil
